@@ -39,6 +39,9 @@ CONFIGS = {
     # C13: the direct map-from-randomness entry point ep_map_rnd dispatches on the compile-time EP_MAP only
     "map-basic": {"cmake": ["-DEP_METHD=PROJC;LWNAF;COMBS;INTER;BASIC"], "cflags": "-O2"},
     "map-swift": {"cmake": ["-DEP_METHD=PROJC;LWNAF;COMBS;INTER;SWIFT"], "cflags": "-O2"},
+    # C05: the other two RSA paddings (the pinned one is PKCS2 = PSS); the BASIC build also takes the non-CRT private-key path
+    "rsa-pkcs1": {"cmake": ["-DCP_RSAPD=PKCS1"], "cflags": "-O2"},
+    "rsa-basic": {"cmake": ["-DCP_RSAPD=BASIC", "-DCP_CRT=off"], "cflags": "-O2"},
 }
 
 
